@@ -357,10 +357,40 @@ pub fn run_race(args: &Args, rep: &mut Report) {
                         drop(b);
                     }};
                 }
-                match rng.below(4) {
+                match rng.below(5) {
                     0 => go!(1),
                     1 => go!(8),
                     2 => go!(16),
+                    3 => {
+                        // iterators and drains are Send when their items are: handing one to another thread and
+                        // dropping it there must not touch this thread's arena (which keeps working meanwhile)
+                        let b = Bump::new();
+                        let v: bumpalo::collections::Vec<u64> = bumpalo::collections::Vec::from_iter_in(0..40u64, &b);
+                        let mut w: bumpalo::collections::Vec<u64> = bumpalo::collections::Vec::from_iter_in(0..16u64, &b);
+                        let stats0 = (b.allocated_bytes(), b.chunk_capacity());
+                        let mut it = v.into_iter();
+                        sum += it.next().unwrap_or(0) as usize;
+                        let d = w.drain(2..9);
+                        std::thread::scope(|sc| {
+                            sc.spawn(move || {
+                                drop(it);
+                                drop(d);
+                            });
+                        });
+                        // joined: nothing the other thread did may show in this arena's statistics
+                        let stats1 = (b.allocated_bytes(), b.chunk_capacity());
+                        if stats0 != stats1 {
+                            sum += 1 << 40; // reported below through the sentinel in `total`
+                        }
+                        let it2 = bumpalo::collections::Vec::from_iter_in(0..24u64, &b).into_iter();
+                        std::thread::scope(|sc| {
+                            sc.spawn(move || drop(it2));
+                            for i in 0..12u64 {
+                                sum += *b.alloc(i) as usize & 1;
+                            }
+                        });
+                        sum += w.len();
+                    }
                     _ => {
                         // collections that never needed memory, on an arena that holds none
                         let b = Bump::new();
@@ -392,6 +422,9 @@ pub fn run_race(args: &Args, rep: &mut Report) {
     let mut total = 0;
     for h in hs {
         total += h.join().unwrap_or(0);
+    }
+    if total >= 1 << 40 {
+        rep.violate("C20", "C20/dropping-a-sent-iterator-on-another-thread-changed-the-arena", format!("{} time(s): allocated_bytes / chunk_capacity of the owning arena differ before and after another thread dropped an IntoIter / Drain of one of its vectors", total >> 40));
     }
     rep.evaluations += rounds as u64;
     rep.add("c20.race_rounds", (rounds * nthreads) as u64);
